@@ -5,9 +5,13 @@
    (no signalling); a bystander uses nsync_mu_unlock_without_wakeup after sections that change nothing; cv waiters
    share the mutex (VRT_CV=1).  Oracles:
    - every waiter without a deadline returns once its condition has been made true (stuck detector);
-   - inside every condition callback no OTHER thread is inside a write critical section (C06);
+   - inside every condition callback no OTHER thread is inside a write critical section, and the mutex word shows a holder
+     (writer bit or a non-zero reader count): a condition is only ever evaluated by a thread that holds the mutex (C06);
    - returns: lock held in the caller's mode; 0 iff the condition is true at return; ETIMEDOUT only at/after the deadline;
-     ECANCELED only with the note notified (C05). */
+     ECANCELED only after nsync_note_notify has been called on the note (the scenario's own record; the note has no expiry) (C05);
+   - VRT_OBS=1 adds an observer thread that looks at the world whenever everybody else is asleep or finished: no waiter may then
+     be asleep inside its wait with its condition already made true by a section that ended with nsync_mu_unlock (C06: a lost
+     wake-up that a timed waiter's own timeout would mask). */
 #include "nsync_cpp.h"
 #include "platform.h"
 #include "compiler.h"
@@ -21,6 +25,10 @@
 #include "vrt.h"
 #include <stdio.h>
 #include <errno.h>
+#include <limits.h>
+#include <unistd.h>
+#include <sys/syscall.h>
+#include <linux/futex.h>
 
 static nsync_mu mu;
 static nsync_cv cv;
@@ -29,6 +37,8 @@ static int x[4];               /* protected by mu */
 struct box { int idx; };
 static struct box b0 = { 0 }, b0_alias = { 0 }, b1 = { 1 }, b2 = { 2 };
 #define WOWNER 8               /* shadow: tid of the thread inside a write section, or 0 */
+#define SH_NOTIFIED 21         /* shadow: set BEFORE nsync_note_notify (cancel) is called */
+#define NOSAN __attribute__ ((no_sanitize ("thread")))
 static int64_t ts_ns (nsync_time t) { return (int64_t) t.tv_sec * 1000000000LL + t.tv_nsec; }
 
 /* tie with coq/Model/MuWaitModel.v (replay/muwait_replay.ml): condition functions and arguments have small ids,
@@ -54,10 +64,15 @@ static void snapshot (char *buf, size_t n) {
 		}
 	}
 }
+/* the mutex word read as plain memory: no scheduling point, no trace event, not seen by the race detector */
+NOSAN static uint32_t mu_word_peek (void) { return *(volatile uint32_t *) &mu.word; }
 static void check_eval (void) {
 	long o = vrt_sh_get (WOWNER);
+	uint32_t w = mu_word_peek ();
 	vrt_count ("cond_eval");
 	if (o != 0 && o != vrt_self ()) vrt_fail ("C06", "condition evaluated by thread %d while thread %ld is inside a write critical section", vrt_self (), o);
+	if ((w & MU_WLOCK) == 0 && (w & MU_RLOCK_FIELD) == 0)
+		vrt_fail ("C06", "condition evaluated by thread %d while nobody holds the mutex (word %u: writer bit clear, reader count 0)", vrt_self (), w);
 }
 static int nonzero (const void *v) { int r; check_eval (); r = x[((const struct box *) v)->idx] != 0; vrt_note ("eval %d 0 %d %d", vrt_self (), arg_id (v), r); return r; }
 static int two (const void *v) { int r; check_eval (); r = x[((const struct box *) v)->idx] >= 2; vrt_note ("eval %d 1 %d %d", vrt_self (), arg_id (v), r); return r; }
@@ -68,8 +83,57 @@ static void announce_wait (int (*f) (const void *), const void *arg, int has_eq,
 static void wsection_begin (void) { vrt_acquired (&mu, 1); vrt_sh_set (WOWNER, vrt_self ()); }
 static void wsection_end (void) { vrt_sh_set (WOWNER, 0); vrt_releasing (&mu, 1); }
 
+/* ---- VRT_OBS=1: an observer for lost wake-ups that a timed waiter's own timeout would turn into a late, but legal-looking,
+   return of 0.  Return times say nothing under an arbitrary scheduler (a woken waiter may simply not have been scheduled), so
+   the observer judges only QUIESCENT states: it naps on a private futex word until just before the nearest deadline of a
+   sleeping waiter; when every other thread is asleep or finished the virtual clock jumps and the observer runs.  In such a
+   state nobody holds the mutex and nobody is about to wake anybody; a waiter that is asleep inside its wait although its
+   condition was made true by a write section whose nsync_mu_unlock HAS RETURNED has not been woken by that critical section
+   (C06: "a thread blocked in nsync_mu_wait returns once its condition has been made true by a critical section that ended
+   with nsync_mu_unlock, with no explicit signalling ... alongside ... timeouts and cancellations"): only a timeout (its own
+   or somebody else's) could still get it out.  Conditions never become false again in this scenario. */
+#define SH_INWAIT(i) (30 + (i))      /* waiter i is inside its nsync_mu_wait_with_deadline call */
+#define SH_XIDX(i) (36 + (i))        /* which x[] its condition is about (-1: none) */
+#define SH_DL(i) (42 + (i))          /* its deadline in ns (INT64_MAX: none) */
+#define SH_SETDONE(j) (48 + (j))     /* condition(s) on x[j] made true and the setter's nsync_mu_unlock has returned */
+static int n_tids, tids[12], n_waiters, wtid[6];
+static uint32_t nap_word;
+NOSAN static void nap_until (int64_t abs_ns) {
+	struct timespec ts;
+	ts.tv_sec = abs_ns / 1000000000LL; ts.tv_nsec = abs_ns % 1000000000LL;
+	while (vrt_now_ns () < abs_ns)
+		syscall (SYS_futex, &nap_word, (long) (FUTEX_WAIT_BITSET | FUTEX_PRIVATE_FLAG | FUTEX_CLOCK_REALTIME), 0L, &ts, NULL, -1L);
+}
+static void observer (void *a) {
+	for (;;) {
+		int i, quiet = 1, unfinished = 0, pending = 0;
+		int64_t now = vrt_now_ns (), target = now + 300;
+		for (i = 0; i < n_tids; i++) if (tids[i] != vrt_self ()) {
+			if (!vrt_is_finished (tids[i])) unfinished++;
+			if (!vrt_is_blocked (tids[i]) && !vrt_is_finished (tids[i])) quiet = 0;
+		}
+		if (unfinished == 0) return;
+		if (quiet) {
+			vrt_count ("observed_quiet");
+			for (i = 0; i < n_waiters; i++) {
+				long j = vrt_sh_get (SH_XIDX (i));
+				if (!vrt_sh_get (SH_INWAIT (i)) || !vrt_is_blocked (wtid[i])) continue;
+				if (j >= 0 && vrt_sh_get (SH_SETDONE (j)))
+					vrt_fail ("C06", "waiter %d is asleep in nsync_mu_wait_with_deadline (deadline %s) at %lld although its condition on x[%ld] was made true by a section that ended with nsync_mu_unlock, and no thread is running: it was not woken", i, vrt_sh_get (SH_DL (i)) == INT64_MAX ? "none" : "pending", (long long) now, j);
+			}
+		}
+		for (i = 0; i < n_waiters; i++) {       /* wake up just before the nearest deadline of a waiting waiter */
+			int64_t d = (int64_t) vrt_sh_get (SH_DL (i));
+			if (vrt_sh_get (SH_INWAIT (i)) && d != INT64_MAX && d > now) { pending = 1; if (d - 1 < target) target = d - 1; }
+		}
+		if (quiet && !pending) return;          /* nothing can change any more: whoever is asleep is left to the stuck detector */
+		if (target <= now) target = now + 1;
+		nap_until (target);
+	}
+}
+
 static void waiter_thr (void *a) {
-	int k = (int) (long) a;            /* condition kind */
+	int k = (int) (long) a % 8, me = (int) (long) a / 8;            /* condition kind, waiter index */
 	int writer = (int) vrt_rand (2), timed = vrt_rand (3) == 0, canc = vrt_rand (4) == 0;
 	int (*f) (const void *) = nonzero;
 	int (*eq) (const void *, const void *) = NULL;
@@ -87,16 +151,22 @@ static void waiter_thr (void *a) {
 	   step), so that timeouts fire INSIDE other threads' unlock / scan / wake windows rather than only while everybody sleeps */
 	if (vrt_opt ("FINE", 0) > 0) { timed = vrt_rand (3) != 0; }
 	if (timed) dl = vrt_opt ("FINE", 0) > 0 ? vrt_abs ((int64_t) vrt_rand ((uint32_t) vrt_opt ("FINE", 0))) : vrt_abs ((int64_t) vrt_rand (5) * 900 - 900);
+	/* VRT_OBS=2: every waiter has a deadline far beyond the busy part of the run (the shape of the library's own stress tests):
+	   a lost wake-up never ends stuck, the waiter's timeout finds the condition true and the call returns 0; only the observer
+	   can tell */
+	if (vrt_opt ("OBS", 0) == 2) { timed = 1; dl = vrt_abs (3000 + (int64_t) vrt_rand (4) * 1000); }
 	if (writer) { nsync_mu_lock (&mu); wsection_begin (); } else { nsync_mu_rlock (&mu); vrt_acquired (&mu, 0); }
 	if (writer) wsection_end (); else vrt_releasing (&mu, 0);
 	announce_wait (f, arg, eq != NULL, timed, dl, canc);
+	vrt_sh_set (SH_XIDX (me), f == NULL ? -1 : arg->idx); vrt_sh_set (SH_DL (me), timed ? (long) ts_ns (dl) : (long) INT64_MAX); vrt_sh_set (SH_INWAIT (me), 1);
 	r = nsync_mu_wait_with_deadline (&mu, f, arg, eq, dl, canc ? cancel : NULL);
+	vrt_sh_set (SH_INWAIT (me), 0);
 	vrt_note ("mwret %d %d", vrt_self (), r);
 	if (writer) wsection_begin (); else vrt_acquired (&mu, 0);
 	truth = f == NULL ? 1 : (f == nonzero ? x[arg->idx] != 0 : x[arg->idx] >= 2);
 	if ((r == 0) != (truth != 0)) vrt_fail ("C05", "nsync_mu_wait_with_deadline returned %d but the condition is %s", r, truth ? "true" : "false");
 	if (r == ETIMEDOUT) { vrt_count ("ret_timeout"); if (!timed) vrt_fail ("C05", "ETIMEDOUT without deadline"); if (vrt_now_ns () < ts_ns (dl)) vrt_fail ("C05", "ETIMEDOUT before the deadline"); }
-	else if (r == ECANCELED) { vrt_count ("ret_cancel"); if (!canc || !nsync_note_is_notified (cancel)) vrt_fail ("C05", "ECANCELED without a notified note"); }
+	else if (r == ECANCELED) { vrt_count ("ret_cancel"); if (!canc || !vrt_sh_get (SH_NOTIFIED)) vrt_fail ("C05", "ECANCELED although %s", !canc ? "no note was given" : "nobody has called nsync_note_notify on the note (it has no expiry)"); }
 	else if (r == 0) vrt_count ("ret_true"); else vrt_fail ("C05", "result %d", r);
 	if (writer) { wsection_end (); nsync_mu_unlock (&mu); } else { vrt_releasing (&mu, 0); nsync_mu_runlock (&mu); }
 }
@@ -110,6 +180,7 @@ static void setter (void *a) {
 	if (vrt_rand (2)) vrt_point ("in-write-section");
 	if (i == 2) { x[2]++; vrt_note ("setc %d 1 3 1", vrt_self ()); }
 	wsection_end (); nsync_mu_unlock (&mu);
+	vrt_sh_set (SH_SETDONE (i), 1);
 	vrt_count ("set");
 }
 static void bystander (void *a) {
@@ -127,8 +198,8 @@ static void cvwaiter (void *a) {
 	while (x[1] == 0) { wsection_end (); nsync_cv_wait (&cv, &mu); wsection_begin (); }
 	wsection_end (); nsync_mu_unlock (&mu);
 }
-static void cvsetter (void *a) { nsync_mu_lock (&mu); wsection_begin (); x[1]++; vrt_note ("setc %d 0 2 1", vrt_self ()); nsync_cv_broadcast (&cv); wsection_end (); nsync_mu_unlock (&mu); }
-static void notifier (void *a) { vrt_point ("n"); nsync_note_notify (cancel); }
+static void cvsetter (void *a) { nsync_mu_lock (&mu); wsection_begin (); x[1]++; vrt_note ("setc %d 0 2 1", vrt_self ()); nsync_cv_broadcast (&cv); wsection_end (); nsync_mu_unlock (&mu); vrt_sh_set (SH_SETDONE (1), 1); }
+static void notifier (void *a) { vrt_point ("n"); vrt_sh_set (SH_NOTIFIED, 1); nsync_note_notify (cancel); }
 
 /* MODE 1: reader-mode waits whose condition never becomes true and whose deadline expires while other readers hold
    the mutex; afterwards fresh readers and writers must still be able to acquire (nobody may be left asleep on a mutex
@@ -197,6 +268,16 @@ static void m2_locker (void *a) {
    finisher make M's condition true.  C must return without any further writer activity: the wake-up must not be lost. */
 #define M3_CDONE 20
 static int m3_go;
+/* a gate on a private futex word (not through the library under test): gate_wait blocks, without deadline, until gate_open */
+static uint32_t m3_gate;
+NOSAN static void gate_wait (uint32_t *g, int sh) {
+	while (!vrt_sh_get (sh)) syscall (SYS_futex, g, (long) (FUTEX_WAIT_BITSET | FUTEX_PRIVATE_FLAG), 0L, NULL, NULL, -1L);
+}
+NOSAN static void gate_open (uint32_t *g, int sh) {
+	vrt_sh_set (sh, 1);
+	*g = 1;
+	syscall (SYS_futex, g, (long) (FUTEX_WAKE | FUTEX_PRIVATE_FLAG), (long) INT_MAX, NULL, NULL, 0L);
+}
 static void m3_mwaiter (void *a) {
 	nsync_mu_lock (&mu); wsection_begin (); wsection_end ();
 	nsync_mu_wait (&mu, two, &b2, NULL);
@@ -206,7 +287,7 @@ static void m3_cvwaiter (void *a) {
 	nsync_mu_lock (&mu); wsection_begin ();
 	while (!m3_go) { wsection_end (); nsync_cv_wait (&cv, &mu); wsection_begin (); }
 	wsection_end (); nsync_mu_unlock (&mu);
-	vrt_sh_set (M3_CDONE, 1);
+	gate_open (&m3_gate, M3_CDONE);
 }
 static void m3_signaller (void *a) {
 	int k;
@@ -223,9 +304,9 @@ static void m3_reader (void *a) {
 	for (k = 0; k < 2; k++) { nsync_mu_rlock (&mu); vrt_acquired (&mu, 0); vrt_point ("reading"); vrt_releasing (&mu, 0); nsync_mu_runlock (&mu); }
 }
 static void m3_finisher (void *a) {
-	int k;
-	for (k = 0; k < 3000 && !vrt_sh_get (M3_CDONE); k++) vrt_yield ();
-	if (!vrt_sh_get (M3_CDONE)) vrt_fail ("C04", "the cv waiter was signalled (its flag is set) but has not returned although no writer is active: lost wake-up");
+	/* sleeps until C has returned: if C's wake-up is lost, M, C and the finisher are all asleep with no deadline pending and the
+	   run ends STUCK (no step budget, no assumption about the scheduler) */
+	gate_wait (&m3_gate, M3_CDONE);
 	nsync_mu_lock (&mu); wsection_begin (); x[2] = 2; wsection_end (); nsync_mu_unlock (&mu);
 }
 
@@ -264,14 +345,17 @@ int main (void) {
 		printf ("VRT-END ok\n");
 		return 0;
 	}
-	for (i = 0; i < nw; i++) { snprintf (nm[i], 8, "w%d", i); vrt_thread (nm[i], waiter_thr, (void *) (long) vrt_rand (5)); }
+#define THREAD(name, fn, arg) (tids[n_tids++] = vrt_thread (name, fn, arg))
+	n_waiters = nw;
+	for (i = 0; i < nw; i++) { snprintf (nm[i], 8, "w%d", i); wtid[i] = THREAD (nm[i], waiter_thr, (void *) (long) (vrt_rand (5) + 8 * i)); }
 	/* every condition is made true by somebody, in random order */
-	vrt_thread ("s0", setter, (void *) 0L);
-	vrt_thread ("s1", setter, (void *) 1L);
-	vrt_thread ("s2", setter, (void *) 2L);
-	if (vrt_rand (2)) vrt_thread ("by", bystander, NULL);
-	if (vrt_opt ("CV", (int) vrt_rand (2))) { vrt_thread ("cvw", cvwaiter, NULL); vrt_thread ("cvs", cvsetter, NULL); }
-	if (vrt_rand (3) == 0) vrt_thread ("ntf", notifier, NULL);
+	THREAD ("s0", setter, (void *) 0L);
+	THREAD ("s1", setter, (void *) 1L);
+	THREAD ("s2", setter, (void *) 2L);
+	if (vrt_rand (2)) THREAD ("by", bystander, NULL);
+	if (vrt_opt ("CV", (int) vrt_rand (2))) { THREAD ("cvw", cvwaiter, NULL); THREAD ("cvs", cvsetter, NULL); }
+	if (vrt_rand (3) == 0) THREAD ("ntf", notifier, NULL);
+	if (vrt_opt ("OBS", 0) && n_tids < 11) THREAD ("obs", observer, NULL);     /* the runtime has room for 11 threads */
 	vrt_run ();
 	printf ("VRT-END ok\n");
 	return 0;
